@@ -18,7 +18,9 @@ func genRecv(g *Gen, n int) {
 		big := g.R.Intn(2) == 0
 		dl, dc := 1+g.R.Intn(2), 1+g.R.Intn(2)
 		if big {
-			dl, dc = ninst+1, ninst+1
+			// nobody ever waits for a token: one pending and one in-flight snapshot per instance
+			// plus the one the consumer holds
+			dl, dc = ninst+1, 2*ninst+2
 		}
 		own := "a"
 		if g.R.Intn(3) == 0 {
@@ -36,9 +38,11 @@ func genRecv(g *Gen, n int) {
 				if big {
 					m = 1 + g.R.Intn(ninst)
 				}
+				corrupt := false
 				for j := 0; j < m; j++ {
 					ts += uint64(1 + g.R.Intn(5))
 					kind := []string{"0", "0", "0", "1", "2"}[g.R.Intn(5)]
+					corrupt = corrupt || kind != "0"
 					lines = append(lines, fmt.Sprintf("recv.put %s %d %s", insts[g.R.Intn(ninst)], ts, kind))
 				}
 				if g.R.Intn(5) == 0 {
@@ -55,9 +59,36 @@ func genRecv(g *Gen, n int) {
 					for d := 0; d < 3; d++ {
 						lines = append(lines, "recv.next ?", "recv.state", "prop.c16.check")
 					}
+					if corrupt {
+						// the next listing promotes an older snapshot of that instance: let it be
+						// processed alone (which downloader wins a token is the scheduler's choice)
+						lines = append(lines, "recv.run 0 0", "recv.state", "prop.c16.check")
+						for d := 0; d < 3; d++ {
+							lines = append(lines, "recv.next ?", "recv.state", "prop.c16.check")
+						}
+					}
 				}
 			case x < 7:
 				lines = append(lines, "recv.next ?", "recv.state", "prop.c16.check")
+			case x < 8 && k%2 == 0:
+				// a snapshot vanishes between listing and download; later a newer one is published
+				who := insts[g.R.Intn(ninst)]
+				ts += uint64(1 + g.R.Intn(5))
+				lines = append(lines, fmt.Sprintf("recv.put %s %d 0", who, ts), fmt.Sprintf("recv.runrm %s %d", who, ts), "recv.state", "prop.c16.check")
+				if g.R.Intn(3) != 0 {
+					ts += uint64(1 + g.R.Intn(5))
+					lines = append(lines, fmt.Sprintf("recv.put %s %d 0", who, ts), "recv.run 0 0", "recv.state", "prop.c16.check")
+				}
+				if !big {
+					for d := 0; d < 3; d++ {
+						lines = append(lines, "recv.next ?", "recv.state", "prop.c16.check")
+					}
+					// an older snapshot of that instance may be promoted by the next listing
+					lines = append(lines, "recv.run 0 0", "recv.state", "prop.c16.check")
+					for d := 0; d < 3; d++ {
+						lines = append(lines, "recv.next ?", "recv.state", "prop.c16.check")
+					}
+				}
 			case x < 8:
 				lines = append(lines, "recv.close", "recv.state", "prop.c16.check")
 			case x < 9:
@@ -66,6 +97,11 @@ func genRecv(g *Gen, n int) {
 				// the cleaner of some instance removes an old snapshot
 				if ts > 103 {
 					lines = append(lines, fmt.Sprintf("recv.rm %s %d", insts[g.R.Intn(ninst)], ts-uint64(g.R.Intn(3))), "recv.run 0 0", "recv.state", "prop.c16.check")
+					if !big {
+						for d := 0; d < 3; d++ {
+							lines = append(lines, "recv.next ?", "recv.state", "prop.c16.check")
+						}
+					}
 				}
 			}
 		}
@@ -75,6 +111,15 @@ func genRecv(g *Gen, n int) {
 			lines = append(lines, "recv.next ?", "prop.c16.check")
 		}
 		lines = append(lines, "recv.close", "recv.state", "prop.c16.check")
+		// repeated listings (each one can peel one corrupt snapshot off an instance) and drains
+		// until the receiver is settled: then everything deliverable must have been delivered
+		for round := 0; round < 4; round++ {
+			lines = append(lines, "recv.run 0 0")
+			for d := 0; d < ninst+1; d++ {
+				lines = append(lines, "recv.next ?")
+			}
+			lines = append(lines, "recv.close", "prop.c16.delivered "+own)
+		}
 		class := "small-limits"
 		if big {
 			class = "big-limits"
